@@ -1045,6 +1045,19 @@ func (c *Conn) closeWithError(err error) error {
 func (c *Conn) closeWithErrorWithoutLock(err error) error {
 	c.closeErr = err
 
+	// Every caller has set c.closed under c.mux, so nobody arms a deadline any
+	// more. A connection closed by a failed Write, Writev, Sendfile or flush
+	// comes here with its timers still armed: they must not stay armed, and
+	// keep the connection alive, until they expire.
+	if c.wTimer != nil {
+		c.wTimer.Stop()
+		c.wTimer = nil
+	}
+	if c.rTimer != nil {
+		c.rTimer.Stop()
+		c.rTimer = nil
+	}
+
 	if c.writeList != nil {
 		for _, t := range c.writeList {
 			c.releaseToWrite(t)
